@@ -49,8 +49,8 @@ Proof. unfold safe, bumpv. intros [Hf Hc]. destruct (Z.leb_spec 0 f), (Z.leb_spe
 Lemma safe_m1 : safe (-1) (-1).
 Proof. unfold safe. lia. Qed.
 
-Lemma bump_mk io rem a f c i :
-  bump (mkLexer io rem a f c i) = mkLexer io rem a (bumpv f) (bumpv c) i.
+Lemma bump_mk io rem a f c i g :
+  bump (mkLx io rem a f c i g) = mkLx io rem a (bumpv f) (bumpv c) i g.
 Proof. unfold bump, bumpv. simpl. destruct (0 <=? f); simpl; destruct (0 <=? c); reflexivity. Qed.
 
 (* ---------- specification predicates vs. the tables of the model ---------- *)
@@ -131,20 +131,22 @@ Proof. intro H. apply name_ok_inv in H. tauto. Qed.
 
 (* ---------- Lex, unfolded for a lexer without pending io operator ---------- *)
 
-Lemma Lex_unfold w rest a f c i :
-  Lex (mkLexer [] (w :: rest) a f c i) =
+(* g = afterAssign on entry; it is cleared before anything else and only passed on
+   to the reserved-word test and to the final switch *)
+Lemma Lex_unfold w rest a f c i g :
+  Lex (mkLx [] (w :: rest) a f c i g) =
   match lookup operator_table (t_text w) with
-  | Some (t, eff) => LexTok t (eff (mkLexer [] rest a f c i))
+  | Some (t, eff) => LexTok t (eff (mkLx [] rest a f c i false))
   | None =>
     match match_io_number (t_text w) with
-    | Some (_, op) => LexTok tkIO_NUMBER (mkLexer op rest a f c i)
+    | Some (_, op) => LexTok tkIO_NUMBER (mkLx op rest a f c i false)
     | None =>
       if a then
-        match lookup keyword_table (t_text w) with
-        | Some (t, eff) => LexTok t (eff (mkLexer [] rest true (-1) (-1) i))
-        | None => lex_word (t_text w) (t_kind w) (mkLexer [] rest true (-1) (-1) i)
+        match (if negb i && negb g then lookup keyword_table (t_text w) else None) with
+        | Some (t, eff) => LexTok t (eff (mkLx [] rest true (-1) (-1) i false))
+        | None => lex_word (t_text w) (t_kind w) g (mkLx [] rest true (-1) (-1) i false)
         end
-      else lex_word (t_text w) (t_kind w) (mkLexer [] rest false (bumpv f) (bumpv c) i)
+      else lex_word (t_text w) (t_kind w) g (mkLx [] rest false (bumpv f) (bumpv c) i false)
     end
   end.
 Proof.
@@ -152,26 +154,31 @@ Proof.
   destruct (lookup operator_table (t_text w)) as [[t eff] |]; [reflexivity |].
   destruct (match_io_number (t_text w)) as [[ds op] |]; [reflexivity |].
   destruct a.
-  - destruct (lookup keyword_table (t_text w)) as [[t eff] |]; reflexivity.
-  - cbv beta iota delta [atCommandStart set_io set_remaining ioRedirect remaining sinceFor sinceCase inCasePattern].
+  - cbv beta iota delta [atCommandStart set_io set_remaining set_aa set_for set_case ioRedirect remaining
+      sinceFor sinceCase inCasePattern afterAssign andb].
+    destruct (negb i && negb g)%bool.
+    + destruct (lookup keyword_table (t_text w)) as [[t eff] |]; reflexivity.
+    + reflexivity.
+  - cbv beta iota delta [atCommandStart set_io set_remaining set_aa ioRedirect remaining sinceFor sinceCase
+      inCasePattern afterAssign andb].
     rewrite bump_mk. reflexivity.
 Qed.
 
-Lemma lex_word_mk token kind rest a f c i :
-  lex_word token kind (mkLexer [] rest a f c i) =
-  if (f =? 2) && str_eqb token s_in then LexTok tkIN (mkLexer [] rest false f c i)
-  else if (f =? 2) && str_eqb token s_do then LexTok tkDO (mkLexer [] rest true f c i)
-  else if (c =? 2) && str_eqb token s_in then LexTok tkIN (mkLexer [] rest false f c true)
-  else if (a || (c =? 3)) && str_eqb token s_esac then LexTok tkESAC (mkLexer [] rest true f c false)
-  else if a && assignment_shaped token then LexTok tkASSIGNMENT_WORD (mkLexer [] rest a f c i)
-  else if starts_with_hash token then LexEOF (mkLexer [] rest a f c i)
+Lemma lex_word_mk token kind g rest a f c i :
+  lex_word token kind g (mkLx [] rest a f c i false) =
+  if (f =? 2) && str_eqb token s_in then LexTok tkIN (mkLx [] rest false f c i false)
+  else if (f =? 2) && str_eqb token s_do then LexTok tkDO (mkLx [] rest true f c i false)
+  else if (c =? 2) && str_eqb token s_in then LexTok tkIN (mkLx [] rest false f c true false)
+  else if ((a && negb g) || (c =? 3)) && str_eqb token s_esac then LexTok tkESAC (mkLx [] rest true f c false false)
+  else if a && negb i && assignment_shaped token then LexTok tkASSIGNMENT_WORD (mkLx [] rest a f c i true)
+  else if starts_with_hash token then LexEOF (mkLx [] rest a f c i false)
   else if 0 <=? c then
     match kind with
     | WkNil => LexPanic
-    | WkLoopExpr => LexTok tkWORD (mkLexer [] rest true f c i)
-    | WkPlain => LexTok tkWORD (mkLexer [] rest false f c i)
+    | WkLoopExpr => LexTok tkWORD (mkLx [] rest true f c i false)
+    | WkPlain => LexTok tkWORD (mkLx [] rest false f c i false)
     end
-  else LexTok tkWORD (mkLexer [] rest false f c i).
+  else LexTok tkWORD (mkLx [] rest false f c i false).
 Proof. reflexivity. Qed.
 
 Lemma eqb_false a b : a <> b -> (a =? b) = false.
@@ -180,9 +187,9 @@ Proof. apply Z.eqb_neq. Qed.
 (* ---------- words ---------- *)
 
 (* a word in argument position (not at command start), counters out of the danger zone *)
-Lemma lex_arg w rest f c i :
+Lemma lex_arg w rest f c i g :
   arg_ok w = true -> safe f c ->
-  Lex (mkLexer [] (w :: rest) false f c i) = LexTok tkWORD (mkLexer [] rest false (bumpv f) (bumpv c) i).
+  Lex (mkLx [] (w :: rest) false f c i g) = LexTok tkWORD (mkLx [] rest false (bumpv f) (bumpv c) i false).
 Proof.
   intros Hw Hs. destruct (arg_ok_inv w Hw) as (Hk & Hop & Hio & Hh).
   pose proof (safe_bump f c Hs) as [Hf' Hc'].
@@ -197,7 +204,7 @@ Qed.
    `case` subject (c = 0) *)
 Lemma lex_arg_for_name w rest i :
   arg_ok w = true ->
-  Lex (mkLexer [] (w :: rest) false 0 (-1) i) = LexTok tkWORD (mkLexer [] rest false 1 (-1) i).
+  Lex (mkLx [] (w :: rest) false 0 (-1) i false) = LexTok tkWORD (mkLx [] rest false 1 (-1) i false).
 Proof.
   intros Hw. destruct (arg_ok_inv w Hw) as (Hk & Hop & Hio & Hh).
   rewrite Lex_unfold, Hop, Hio, lex_word_mk.
@@ -207,7 +214,7 @@ Qed.
 
 Lemma lex_arg_case_subject w rest i :
   arg_ok w = true ->
-  Lex (mkLexer [] (w :: rest) false (-1) 0 i) = LexTok tkWORD (mkLexer [] rest false (-1) 1 i).
+  Lex (mkLx [] (w :: rest) false (-1) 0 i false) = LexTok tkWORD (mkLx [] rest false (-1) 1 i false).
 Proof.
   intros Hw. destruct (arg_ok_inv w Hw) as (Hk & Hop & Hio & Hh).
   rewrite Lex_unfold, Hop, Hio, lex_word_mk.
@@ -215,144 +222,179 @@ Proof.
   cbn [Z.eqb andb orb Pos.eqb Z.leb Z.compare]. rewrite Hh, Hk. reflexivity.
 Qed.
 
+Lemma pattern_ok_inv w : pattern_ok w = true -> arg_ok w = true /\ str_eqb (t_text w) s_esac = false.
+Proof.
+  unfold pattern_ok. intro H. apply andb_true_iff in H. destruct H as [Ha He].
+  apply negb_true_iff in He. auto.
+Qed.
+
 (* the first pattern of a case clause: sinceCase goes from 2 to 3, where `esac` is special *)
 Lemma lex_first_pattern w rest i :
-  name_ok w = true ->
-  Lex (mkLexer [] (w :: rest) false (-1) 2 i) = LexTok tkWORD (mkLexer [] rest false (-1) 3 i).
+  pattern_ok w = true ->
+  Lex (mkLx [] (w :: rest) false (-1) 2 i false) = LexTok tkWORD (mkLx [] rest false (-1) 3 i false).
 Proof.
-  intros Hn. destruct (name_ok_inv w Hn) as (Hw & Hr & Has).
+  intros Hn. destruct (pattern_ok_inv w Hn) as (Hw & Hesac).
   destruct (arg_ok_inv w Hw) as (Hk & Hop & Hio & Hh).
-  destruct (not_reserved_lookup _ Hr) as (_ & Hesac & _ & _).
   rewrite Lex_unfold, Hop, Hio, lex_word_mk.
   change (bumpv 2) with 3. change (bumpv (-1)) with (-1).
   cbn [Z.eqb andb orb Pos.eqb Z.leb Z.compare]. rewrite Hesac, Hh, Hk. reflexivity.
 Qed.
 
-(* a word in command position: command name, function name, pattern after `;;` *)
+(* a pattern directly after `;;`: at command start, but inCasePattern protects it from the
+   reserved-word switch and from the assignment-word arm *)
+Lemma lex_pattern_after_dsemi w rest f c :
+  pattern_ok w = true ->
+  Lex (mkLx [] (w :: rest) true f c true false) = LexTok tkWORD (mkLx [] rest false (-1) (-1) true false).
+Proof.
+  intros Hn. destruct (pattern_ok_inv w Hn) as (Hw & Hesac).
+  destruct (arg_ok_inv w Hw) as (Hk & Hop & Hio & Hh).
+  rewrite Lex_unfold, Hop, Hio. cbn [negb andb]. rewrite lex_word_mk.
+  cbn [Z.eqb andb orb negb Z.leb Z.compare]. rewrite Hesac, Hh. reflexivity.
+Qed.
+
+(* the first word of a command: command name, function name *)
 Lemma lex_name w rest f c i :
   name_ok w = true ->
-  Lex (mkLexer [] (w :: rest) true f c i) = LexTok tkWORD (mkLexer [] rest false (-1) (-1) i).
+  Lex (mkLx [] (w :: rest) true f c i false) = LexTok tkWORD (mkLx [] rest false (-1) (-1) i false).
 Proof.
   intros Hn. destruct (name_ok_inv w Hn) as (Hw & Hr & Has).
   destruct (arg_ok_inv w Hw) as (Hk & Hop & Hio & Hh).
   destruct (not_reserved_lookup _ Hr) as (Hkw & Hesac & _ & _).
-  rewrite Lex_unfold, Hop, Hio, Hkw, lex_word_mk.
-  cbn [Z.eqb andb orb Z.leb Z.compare]. rewrite Hesac, Has, Hh. reflexivity.
+  rewrite Lex_unfold, Hop, Hio, Hkw. replace (if (negb i && negb false)%bool then None else None) with (@None (term * (lexer -> lexer)))
+    by (destruct i; reflexivity).
+  rewrite lex_word_mk.
+  cbn [Z.eqb andb orb Z.leb Z.compare]. rewrite Hesac, Has, Hh. rewrite !andb_false_r. reflexivity.
 Qed.
 
-(* an assignment word in command position; the lexer stays at command start *)
-Lemma lex_assign w rest f c i :
+(* a command name after an assignment word: not subject to the reserved-word switch *)
+Lemma lex_name_after_assign w rest f c :
+  later_name_ok w = true ->
+  Lex (mkLx [] (w :: rest) true f c false true) = LexTok tkWORD (mkLx [] rest false (-1) (-1) false false).
+Proof.
+  unfold later_name_ok. intro H. apply andb_true_iff in H. destruct H as [Hw Has].
+  apply negb_true_iff in Has. rewrite assignment_like_shaped in Has.
+  destruct (arg_ok_inv w Hw) as (Hk & Hop & Hio & Hh).
+  rewrite Lex_unfold, Hop, Hio. cbn [negb andb]. rewrite lex_word_mk.
+  cbn [Z.eqb andb orb negb Z.leb Z.compare]. rewrite Has, Hh. reflexivity.
+Qed.
+
+(* an assignment word in command position (not in a case pattern); the lexer stays at
+   command start and remembers the assignment *)
+Lemma lex_assign w rest f c g :
   assign_ok w = true ->
-  Lex (mkLexer [] (w :: rest) true f c i) = LexTok tkASSIGNMENT_WORD (mkLexer [] rest true (-1) (-1) i).
+  Lex (mkLx [] (w :: rest) true f c false g) = LexTok tkASSIGNMENT_WORD (mkLx [] rest true (-1) (-1) false true).
 Proof.
   unfold assign_ok. intro H. apply andb_true_iff in H. destruct H as [Hw Ha].
   destruct (arg_ok_inv w Hw) as (Hk & Hop & Hio & Hh).
   destruct (not_reserved_lookup _ (assignment_not_reserved _ Ha)) as (Hkw & Hesac & _ & _).
   rewrite assignment_like_shaped in Ha.
-  rewrite Lex_unfold, Hop, Hio, Hkw, lex_word_mk.
-  cbn [Z.eqb andb orb Z.leb Z.compare]. rewrite Hesac, Ha. reflexivity.
+  rewrite Lex_unfold, Hop, Hio. rewrite Hkw.
+  replace (if (negb false && negb g)%bool then None else None) with (@None (term * (lexer -> lexer)))
+    by (destruct g; reflexivity).
+  rewrite lex_word_mk.
+  cbn [Z.eqb andb orb negb Z.leb Z.compare]. rewrite Hesac, Ha. rewrite !andb_false_r. reflexivity.
 Qed.
 
 (* ---------- operators and reserved words: by computation ---------- *)
 
 Definition kt (s : str) : tok := mkTok s WkPlain.
 
-Lemma lex_semi rest a f c i :
-  Lex (mkLexer [] (kt s_semi :: rest) a f c i) = LexTok tkSEMI (mkLexer [] rest true f c i).
+Lemma lex_semi rest a f c i g :
+  Lex (mkLx [] (kt s_semi :: rest) a f c i g) = LexTok tkSEMI (mkLx [] rest true f c i false).
 Proof. reflexivity. Qed.
-Lemma lex_amp rest a f c i :
-  Lex (mkLexer [] (kt s_amp :: rest) a f c i) = LexTok tkBACKGROUND (mkLexer [] rest true f c i).
+Lemma lex_amp rest a f c i g :
+  Lex (mkLx [] (kt s_amp :: rest) a f c i g) = LexTok tkBACKGROUND (mkLx [] rest true f c i false).
 Proof. reflexivity. Qed.
-Lemma lex_andand rest a f c i :
-  Lex (mkLexer [] (kt s_andand :: rest) a f c i) = LexTok tkAND (mkLexer [] rest true f c i).
+Lemma lex_andand rest a f c i g :
+  Lex (mkLx [] (kt s_andand :: rest) a f c i g) = LexTok tkAND (mkLx [] rest true f c i false).
 Proof. reflexivity. Qed.
-Lemma lex_oror rest a f c i :
-  Lex (mkLexer [] (kt s_oror :: rest) a f c i) = LexTok tkOR (mkLexer [] rest true f c i).
+Lemma lex_oror rest a f c i g :
+  Lex (mkLx [] (kt s_oror :: rest) a f c i g) = LexTok tkOR (mkLx [] rest true f c i false).
 Proof. reflexivity. Qed.
-Lemma lex_semisemi rest a f c i :
-  Lex (mkLexer [] (kt s_semisemi :: rest) a f c i) = LexTok tkSEMISEMI (mkLexer [] rest true f c true).
+Lemma lex_semisemi rest a f c i g :
+  Lex (mkLx [] (kt s_semisemi :: rest) a f c i g) = LexTok tkSEMISEMI (mkLx [] rest true f c true false).
 Proof. reflexivity. Qed.
-Lemma lex_pipe rest a f c i :
-  Lex (mkLexer [] (kt s_pipe :: rest) a f c i) = LexTok tkPIPE (mkLexer [] rest (negb i) f c i).
+Lemma lex_pipe rest a f c i g :
+  Lex (mkLx [] (kt s_pipe :: rest) a f c i g) = LexTok tkPIPE (mkLx [] rest (negb i) f c i false).
 Proof. reflexivity. Qed.
-Lemma lex_lparen rest a f c i :
-  Lex (mkLexer [] (kt s_lparen :: rest) a f c i) = LexTok tkLPAREN (mkLexer [] rest (negb i) f c i).
+Lemma lex_lparen rest a f c i g :
+  Lex (mkLx [] (kt s_lparen :: rest) a f c i g) = LexTok tkLPAREN (mkLx [] rest (negb i) f c i false).
 Proof. reflexivity. Qed.
-Lemma lex_rparen rest a f c i :
-  Lex (mkLexer [] (kt s_rparen :: rest) a f c i) = LexTok tkRPAREN (mkLexer [] rest true f c false).
+Lemma lex_rparen rest a f c i g :
+  Lex (mkLx [] (kt s_rparen :: rest) a f c i g) = LexTok tkRPAREN (mkLx [] rest true f c false false).
 Proof. reflexivity. Qed.
 
 (* reserved words in command position *)
-Lemma lex_if rest f c i :
-  Lex (mkLexer [] (kt s_if :: rest) true f c i) = LexTok tkIF (mkLexer [] rest true (-1) (-1) i).
+Lemma lex_if rest f c :
+  Lex (mkLx [] (kt s_if :: rest) true f c false false) = LexTok tkIF (mkLx [] rest true (-1) (-1) false false).
 Proof. reflexivity. Qed.
-Lemma lex_then rest f c i :
-  Lex (mkLexer [] (kt s_then :: rest) true f c i) = LexTok tkTHEN (mkLexer [] rest true (-1) (-1) i).
+Lemma lex_then rest f c :
+  Lex (mkLx [] (kt s_then :: rest) true f c false false) = LexTok tkTHEN (mkLx [] rest true (-1) (-1) false false).
 Proof. reflexivity. Qed.
-Lemma lex_elif rest f c i :
-  Lex (mkLexer [] (kt s_elif :: rest) true f c i) = LexTok tkELIF (mkLexer [] rest true (-1) (-1) i).
+Lemma lex_elif rest f c :
+  Lex (mkLx [] (kt s_elif :: rest) true f c false false) = LexTok tkELIF (mkLx [] rest true (-1) (-1) false false).
 Proof. reflexivity. Qed.
-Lemma lex_else rest f c i :
-  Lex (mkLexer [] (kt s_else :: rest) true f c i) = LexTok tkELSE (mkLexer [] rest true (-1) (-1) i).
+Lemma lex_else rest f c :
+  Lex (mkLx [] (kt s_else :: rest) true f c false false) = LexTok tkELSE (mkLx [] rest true (-1) (-1) false false).
 Proof. reflexivity. Qed.
-Lemma lex_fi rest f c i :
-  Lex (mkLexer [] (kt s_fi :: rest) true f c i) = LexTok tkFI (mkLexer [] rest true (-1) (-1) i).
+Lemma lex_fi rest f c :
+  Lex (mkLx [] (kt s_fi :: rest) true f c false false) = LexTok tkFI (mkLx [] rest true (-1) (-1) false false).
 Proof. reflexivity. Qed.
-Lemma lex_while rest f c i :
-  Lex (mkLexer [] (kt s_while :: rest) true f c i) = LexTok tkWHILE (mkLexer [] rest true (-1) (-1) i).
+Lemma lex_while rest f c :
+  Lex (mkLx [] (kt s_while :: rest) true f c false false) = LexTok tkWHILE (mkLx [] rest true (-1) (-1) false false).
 Proof. reflexivity. Qed.
-Lemma lex_until rest f c i :
-  Lex (mkLexer [] (kt s_until :: rest) true f c i) = LexTok tkUNTIL (mkLexer [] rest true (-1) (-1) i).
+Lemma lex_until rest f c :
+  Lex (mkLx [] (kt s_until :: rest) true f c false false) = LexTok tkUNTIL (mkLx [] rest true (-1) (-1) false false).
 Proof. reflexivity. Qed.
-Lemma lex_do rest f c i :
-  Lex (mkLexer [] (kt s_do :: rest) true f c i) = LexTok tkDO (mkLexer [] rest true (-1) (-1) i).
+Lemma lex_do rest f c :
+  Lex (mkLx [] (kt s_do :: rest) true f c false false) = LexTok tkDO (mkLx [] rest true (-1) (-1) false false).
 Proof. reflexivity. Qed.
-Lemma lex_done rest f c i :
-  Lex (mkLexer [] (kt s_done :: rest) true f c i) = LexTok tkDONE (mkLexer [] rest true (-1) (-1) i).
+Lemma lex_done rest f c :
+  Lex (mkLx [] (kt s_done :: rest) true f c false false) = LexTok tkDONE (mkLx [] rest true (-1) (-1) false false).
 Proof. reflexivity. Qed.
-Lemma lex_lbrace rest f c i :
-  Lex (mkLexer [] (kt s_lbrace :: rest) true f c i) = LexTok tkLBRACE (mkLexer [] rest true (-1) (-1) i).
+Lemma lex_lbrace rest f c :
+  Lex (mkLx [] (kt s_lbrace :: rest) true f c false false) = LexTok tkLBRACE (mkLx [] rest true (-1) (-1) false false).
 Proof. reflexivity. Qed.
-Lemma lex_rbrace rest f c i :
-  Lex (mkLexer [] (kt s_rbrace :: rest) true f c i) = LexTok tkRBRACE (mkLexer [] rest true (-1) (-1) i).
+Lemma lex_rbrace rest f c :
+  Lex (mkLx [] (kt s_rbrace :: rest) true f c false false) = LexTok tkRBRACE (mkLx [] rest true (-1) (-1) false false).
 Proof. reflexivity. Qed.
-Lemma lex_bang rest f c i :
-  Lex (mkLexer [] (kt s_bang :: rest) true f c i) = LexTok tkEXCLAM (mkLexer [] rest true (-1) (-1) i).
+Lemma lex_bang rest f c :
+  Lex (mkLx [] (kt s_bang :: rest) true f c false false) = LexTok tkEXCLAM (mkLx [] rest true (-1) (-1) false false).
 Proof. reflexivity. Qed.
-Lemma lex_for rest f c i :
-  Lex (mkLexer [] (kt s_for :: rest) true f c i) = LexTok tkFOR (mkLexer [] rest false 0 (-1) i).
+Lemma lex_for rest f c :
+  Lex (mkLx [] (kt s_for :: rest) true f c false false) = LexTok tkFOR (mkLx [] rest false 0 (-1) false false).
 Proof. reflexivity. Qed.
-Lemma lex_case rest f c i :
-  Lex (mkLexer [] (kt s_case :: rest) true f c i) = LexTok tkCASE (mkLexer [] rest false (-1) 0 i).
+Lemma lex_case rest f c :
+  Lex (mkLx [] (kt s_case :: rest) true f c false false) = LexTok tkCASE (mkLx [] rest false (-1) 0 false false).
 Proof. reflexivity. Qed.
 Lemma lex_esac_cmdstart rest f c i :
-  Lex (mkLexer [] (kt s_esac :: rest) true f c i) = LexTok tkESAC (mkLexer [] rest true (-1) (-1) false).
-Proof. reflexivity. Qed.
+  Lex (mkLx [] (kt s_esac :: rest) true f c i false) = LexTok tkESAC (mkLx [] rest true (-1) (-1) false false).
+Proof. destruct i; reflexivity. Qed.
 
 (* `in` and `do` after the `for` variable, `in` after the `case` subject, `esac`
    directly after that `in`: recognised by the counters, not by the position *)
 Lemma lex_for_in rest i :
-  Lex (mkLexer [] (kt s_in :: rest) false 1 (-1) i) = LexTok tkIN (mkLexer [] rest false 2 (-1) i).
+  Lex (mkLx [] (kt s_in :: rest) false 1 (-1) i false) = LexTok tkIN (mkLx [] rest false 2 (-1) i false).
 Proof. reflexivity. Qed.
 Lemma lex_for_do rest i :
-  Lex (mkLexer [] (kt s_do :: rest) false 1 (-1) i) = LexTok tkDO (mkLexer [] rest true 2 (-1) i).
+  Lex (mkLx [] (kt s_do :: rest) false 1 (-1) i false) = LexTok tkDO (mkLx [] rest true 2 (-1) i false).
 Proof. reflexivity. Qed.
 Lemma lex_case_in rest i :
-  Lex (mkLexer [] (kt s_in :: rest) false (-1) 1 i) = LexTok tkIN (mkLexer [] rest false (-1) 2 true).
+  Lex (mkLx [] (kt s_in :: rest) false (-1) 1 i false) = LexTok tkIN (mkLx [] rest false (-1) 2 true false).
 Proof. reflexivity. Qed.
 Lemma lex_case_in_esac rest i :
-  Lex (mkLexer [] (kt s_esac :: rest) false (-1) 2 i) = LexTok tkESAC (mkLexer [] rest true (-1) 3 false).
+  Lex (mkLx [] (kt s_esac :: rest) false (-1) 2 i false) = LexTok tkESAC (mkLx [] rest true (-1) 3 false false).
 Proof. reflexivity. Qed.
 
 (* ---------- redirections ---------- *)
 
-Lemma lex_rop o rest a f c i :
-  Lex (mkLexer [] (kt (rop_text o) :: rest) a f c i) = LexTok (rop_term o) (mkLexer [] rest false f c i).
+Lemma lex_rop o rest a f c i g :
+  Lex (mkLx [] (kt (rop_text o) :: rest) a f c i g) = LexTok (rop_term o) (mkLx [] rest false f c i false).
 Proof. destruct o; reflexivity. Qed.
 
 (* the pending operator of an io-number token *)
 Lemma lex_pending_rop o t rest a f c i :
-  Lex (mkLexer (rop_text o) (t :: rest) a f c i) = LexTok (rop_term o) (mkLexer [] (t :: rest) false f c i).
+  Lex (mkLx (rop_text o) (t :: rest) a f c i false) = LexTok (rop_term o) (mkLx [] (t :: rest) false f c i false).
 Proof. destruct o; reflexivity. Qed.
 
 Lemma span_digits_app ds r :
@@ -376,10 +418,10 @@ Proof.
   rewrite !H by reflexivity. reflexivity.
 Qed.
 
-Lemma lex_io_number ds o rest a f c i :
+Lemma lex_io_number ds o rest a f c i g :
   ds <> [] -> forallb is_digit ds = true ->
-  Lex (mkLexer [] (kt (ds ++ rop_text o) :: rest) a f c i)
-  = LexTok tkIO_NUMBER (mkLexer (rop_text o) rest a f c i).
+  Lex (mkLx [] (kt (ds ++ rop_text o) :: rest) a f c i g)
+  = LexTok tkIO_NUMBER (mkLx (rop_text o) rest a f c i false).
 Proof.
   intros Hne Hd. destruct ds as [| d ds]; [congruence |].
   unfold Lex. cbn [remaining ioRedirect set_io set_remaining kt t_text t_kind].
